@@ -753,8 +753,8 @@ class HippoClient(BaseClientSessionManager):
             if self.session is None:
                 break
             for region in self.session.regions:
-                if not region.circuit.is_alive:
-                    continue
+                # A circuit isn't marked alive until its UseCircuitCode has been ACKed, but that
+                # has to be resent like anything else. Disconnecting clears anything unacked.
                 region.circuit.resend_unacked()
             await asyncio.sleep(0.5)
 
